@@ -6,9 +6,13 @@ package main
 import (
 	"fmt"
 	"sort"
+	"strings"
 
 	"github.com/Tom-Johnston/mamba/comb"
 	"github.com/Tom-Johnston/mamba/dawg"
+	"github.com/Tom-Johnston/mamba/disjoint"
+	"github.com/Tom-Johnston/mamba/ints"
+	"github.com/Tom-Johnston/mamba/tsp"
 	"github.com/Tom-Johnston/mamba/graph"
 	"github.com/Tom-Johnston/mamba/graph/search"
 	"github.com/Tom-Johnston/mamba/itertools"
@@ -172,6 +176,51 @@ func sharedGraphThreads(g graph.Graph) []threadBody {
 	}
 }
 
+// wideGraphThreads calls the remaining observer / transformation functions on one shared graph.
+func wideGraphThreads(g graph.EditableGraph) []threadBody {
+	return []threadBody{
+		opsBody(
+			func() string { a, b := graph.ChromaticIndex(g); return fmt.Sprint(a, b) },
+			func() string { return fmt.Sprint(graph.ChromaticPolynomial(g.Copy())) },
+			func() string { return fmt.Sprint(graph.NumberOfCycles(g.Copy()), graph.NumberOfInducedCycles(g, -1)) },
+			func() string { ok, c := graph.IsKColorable(g, 3); return fmt.Sprint(ok, c, graph.IsProperColouring(g, c)) },
+		),
+		opsBody(
+			func() string { return fmt.Sprint(graph.NumberOfInducedPaths(g, 3), graph.Diameter(g), graph.Radius(g)) },
+			func() string { return fmt.Sprint(graph.Distance(g, 0, 6), graph.ConnectedComponents(g), graph.ConnectedComponent(g, 3)) },
+			func() string {
+				order := make([]int, g.N())
+				for i := range order {
+					order[i] = g.N() - 1 - i
+				}
+				a, b := graph.GreedyColor(g, order)
+				return fmt.Sprint(a, b, graph.MinDegree(g), graph.MaxDegree(g))
+			},
+			func() string {
+				l := graph.LineGraphDense(g)
+				c := graph.ComplementDense(g)
+				v := graph.Complement(g)
+				return graph.Graph6Encode(l) + graph.Graph6Encode(c) + fmt.Sprint(v.Neighbours(0), graph.Equal(c, v), graph.RandomMaximalClique(g, 7))
+			},
+		),
+		opsBody(
+			func() string {
+				h := g.Copy()
+				graph.SplitEdge(h, 0, 1)
+				graph.Contract(h, 2, 3)
+				h.RemoveVertex(1)
+				return graph.Graph6Encode(h) + fmt.Sprint(graph.InducedSubgraph(g, []int{4, 0, 2}).Degrees(), g.InducedSubgraph([]int{5, 4, 6}).Degrees())
+			},
+			func() string {
+				d, e1 := graph.Graph6Decode(graph.Graph6Encode(g))
+				s6, e2 := graph.Sparse6Decode(graph.Sparse6Encode(g))
+				m := graph.MulticodeDecode(graph.MulticodeEncode(g))
+				return fmt.Sprint(e1, e2, graph.Equal(d, g), graph.Equal(s6, g), graph.Equal(m, g), graph.AdjacencyMatrixEncode(g))
+			},
+		),
+	}
+}
+
 func testGraphEdges() (int, [][2]int) {
 	// a 7-vertex graph with a 5-cycle, a chord, a pendant triangle and an isolated vertex
 	return 8, [][2]int{{0, 1}, {1, 2}, {2, 3}, {3, 4}, {0, 4}, {0, 2}, {4, 5}, {5, 6}, {4, 6}}
@@ -303,6 +352,44 @@ func allScenarios() []scenario {
 			return &instance{shared: map[string]interface{}{"graph": g}, threads: sharedGraphThreads(g)}
 		}})
 	}
+	out = append(out, scenario{"graph-shared-wide", func() *instance {
+		n, edges := testGraphEdges()
+		g := graph.NewSparse(n, nil)
+		for _, e := range edges {
+			g.AddEdge(e[0], e[1])
+		}
+		return &instance{shared: map[string]interface{}{"graph": g}, threads: wideGraphThreads(g)}
+	}})
+	out = append(out, scenario{"constructors-and-misc", func() *instance {
+		mk := func(seed int64) threadBody {
+			return opsBody(
+				func() string {
+					s := ""
+					for _, g := range []*graph.DenseGraph{graph.CompleteGraph(4), graph.Path(5), graph.Cycle(5), graph.Star(4), graph.CompletePartiteGraph(2, 2, 1), graph.RookGraph(2, 3), graph.FlowerSnark(3), graph.HypercubeGraph(3), graph.FoldedHypercubeGraph(3), graph.KneserGraph(5, 2), graph.BipartiteKneserGraph(4, 1), graph.CirculantGraph(7, 1, 3), graph.CirculantBipartiteGraph(3, 4, 0, 1), graph.GeneralisedPetersenGraph(5, 2), graph.FriendshipGraph(3), graph.RandomGraph(6, 0.5, seed), graph.RandomTree(7, seed)} {
+						s += graph.Graph6Encode(g) + " "
+					}
+					return s
+				},
+				func() string {
+					t := graph.RandomTree(8, seed)
+					code := graph.PruferEncode(t)
+					return fmt.Sprint(code, graph.Equal(graph.PruferDecode(code), t), len(graph.MulticodeDecodeMultiple([]byte{2, 2, 0, 1, 3, 0, 0})))
+				},
+				func() string {
+					var sb strings.Builder
+					err := tsp.LIB(&sb, 4, func(i, j int) int { return i*10 + j + int(seed) })
+					ds := disjoint.New(6)
+					ds.Union(0, 1)
+					ds.Union(2, 3)
+					ds.Union(1, 3)
+					x := []int{5, 3, 9, 1, 1, 8, int(seed)}
+					ints.Sort(x)
+					return fmt.Sprint(err, sb.Len(), ds.Sets(), ds.SmallestRep(), ds.Find(3) == ds.Find(0), x, ints.Max(x), ints.Sum(x))
+				},
+			)
+		}
+		return &instance{threads: []threadBody{mk(3), mk(4)}}
+	}})
 	out = append(out, scenario{"comb", func() *instance {
 		return &instance{threads: []threadBody{
 			opsBody(
